@@ -68,7 +68,7 @@ def r1(ctx, R):
         R.bad(mp, mp.node, "models property is not the registry itself", stmt="return")
 
 
-@rule("C19.R2", "C19", "FLOW", "every registry write keys the model by its current name", min_instances=3)
+@rule("C19.R2", "C19", "FLOW", "every registry write keys the model by its current name", min_instances=3, also=("C14",))
 def r2(ctx, R):
     """new_model: models[currentmodel.name] = currentmodel; rename_model: models[new_name] =
     models.pop(old_name) only where ModelImpl.rename(new_name) returned true; close_model:
@@ -269,6 +269,17 @@ def r5(ctx, R):
     """Per-model classes have no class-level list/dict/set/deque/constructor value and no
     mutable default argument; ModelImpl.__init__ constructs its own SpaceManager,
     ReferenceManager, graphs and containers."""
+    ci_ = ctx.func("CellsImpl.__init__")
+    R.inst("CellsImpl.__init__: a cells that is not derived gets its own Formula object (Formula._reload mutates in place)")
+    for st, t in q.attr_writes(ci_, attr="formula", recv="self"):
+        g = q.guards_of(ci_, st)
+        if ("base", "T") in g:
+            continue            # derived / dynamic cells share the base's formula by design (re-derived on every edit)
+        v = st.value
+        if not (isinstance(v, ast.Call) and (call_name(v) in ("Formula", "NullFormula", "__class__") or
+                                             norm(v.func).endswith(".__class__"))):
+            R.bad(ci_, st, "a cells takes over the Formula object it is given: a copy in another model shares it with its "
+                           "source, and reload() of the source rewrites the copy's formula")
     def mutable(e):
         if isinstance(e, (ast.List, ast.Dict, ast.Set, ast.ListComp, ast.DictComp, ast.SetComp)):
             return True
